@@ -231,6 +231,21 @@ def build(gtype, g):
         G = DirectedGraph(g['n'])
     for u, v in g['edges']:
         G.add_edge(u, v)
+    if gtype == 'simple' and len(g['edges']) % 2 == 1:
+        # ... or edited: every edge removed and put back with its endpoints
+        # named in the other order (both ways round); the graph is the same
+        for i, (u, v) in enumerate(g['edges']):
+            a_, b_ = min(u, v), max(u, v)
+            if i % 2 == 0:
+                G.remove_edge(a_, b_)
+                G.add_edge(b_, a_)
+            else:
+                G.remove_edge(b_, a_)
+                G.add_edge(a_, b_)
+    elif gtype == 'bipartite' and len(g['edges']) % 2 == 1 and hasattr(G, 'remove_edge'):
+        for (u, v) in g['edges'][:2]:
+            G.remove_edge(u, v)
+            G.add_edge(u, v)
     return G
 
 
@@ -397,7 +412,13 @@ def check_rt(case, tmp, stats=None):
     sc = sizeclass(g)
     cls = {'simple': Graph, 'digraph': DirectedGraph, 'dag': DirectedGraph,
            'bipartite': BipartiteGraph}[gtype]
-    path = tmp.path('g%s.%s' % (via, fmt))
+    # file names: plain, or with other dots in the name and in the directory
+    # (the format is what follows the LAST dot of the file name)
+    if (len(repr(g)) + len(via)) % 2:
+        path = tmp.path('g%s.%s' % (via, fmt))
+    else:
+        os.makedirs(tmp.path('run.1.d'), exist_ok=True)
+        path = tmp.path(os.path.join('run.1.d', 'g.%s.v2.%s' % (via, fmt)))
     # ---- write
     try:
         with Quiet():
